@@ -10,6 +10,8 @@ NOTE = ("Trusted base: Lean 4.33 kernel; axioms limited to propext/Classical.cho
         "stack and wall-clock are modelled or out of the model (DESIGN section 8).")
 
 CLAIMS = {
+ "C04": ("proof", "Machine-checked (Lean 4): run alone, 'fields on correct type' reports iff some non-meta field is selected on a schema-known type that does not define it (or __typename sits directly at a subscription root - the extra report the statement allows), 'leaf field selections' iff a leaf-typed field has a sub-selection or a non-leaf-typed one lacks it; positions and their types are those of the lexically scoped walk proved equal to the visitor's stack machine (C16); every error carries the rule's code (C13.codes). Tied to the code by comparing the two rules' verdicts on a bounded-exhaustive enumeration of small selection trees over a schema with object/interface/union/wrapped types and on random documents over curated and random schemas.", "6 C04", "Lean iff-theorems via the C16 refinement + bounded-exhaustive and random differential run"),
+ "C10": ("proof", "Machine-checked (Lean 4): 'known directives' reports iff some directive is undeclared or used at a location its declaration does not list - the proof carries the slot invariant (recent_location = location of the node whose directives are being visited) through the whole traversal, for every nesting; 'unique directives per location' reports iff a declared non-repeatable directive occurs at least twice on one node (knownDirectives_iff, uniqueDirectives_iff; hypothesis: unique directive names, query root present). Tied to the code by verdict comparison on a ten-slot document family covering every location kind x declared location set x multiplicity, nested owners, and random documents.", "6 C10", "Lean iff-theorems (slot invariant over the event fold) + systematic and random differential run"),
  "C13": ("proof", "Machine-checked (Lean 4): with the balanced visitor every rule of a plan runs on the same callback trace, so validate(plan) is the in-order concatenation of the single-rule results (validateGrouped_eq_singles, validate_eq_flatMap_single, validate_append); every error of every rule carries that rule's code (codes, for all 24 rules and any trace); the default plan and the error_code literals are regenerated from the Rust sources on every run and proved to contain each of the 24 rules exactly once / be the identity (Gen/*.lean, by decide). On the implementation the union property is checked directly for the default plan and random plans (sub-sequences, repetitions, permutations), as are codes, non-empty messages, locations being node positions and the exact JSON shape; the model is compared per rule on error locations.", "6 C13", "Lean theorems (algebraic law via stack balance; code invariant over the event fold) + generated tables + differential run"),
  "C12": ("proof", "PARTIAL proof: the model's validate is a function by construction; proved are the facts that make the real code behave like it - every rule hands the shared context back unchanged and sees the trace of a fresh context whatever ran before (context_restored, rule_sees_same_trace), and the generated inventory of process-wide/interior-mutable state is exactly the two immutable lazy_static defaults (shared_state_inventory, rfl against a file regenerated from /repo/src). Thread interleavings, hasher state and the second parser backend are NOT expressible in the model: they are explored by the run (repeated, interleaved, 16-thread and fork-backend results, each compared with one model prediction including messages).", "6 C12", "Lean invariants + generated state inventory; exploration for threads/backends (labelled partial)"),
  "C18": ("proof", "Machine-checked (Lean 4): is_subtype decides the inductive spec relation Subtype (hence reflexive; transitive on well-formed schemas), Value::compare is tree equality, variables_in_use = variable leaves, is_required = non-null without default, lookups return the definition of that name iff one exists (and type_map agrees under unique names), roots resolve to the schema definition's entries or the default names, possible_types = implementing/member objects, do_types_overlap = same type or intersecting possible sets, symmetric (Thm/C18.lean, 16 obligations). Tied to the code by exhaustive per-schema answer matrices of the real helpers compared with the model's, plus direct checks of reflexivity/transitivity/symmetry/tree-equality on the implementation's own answers.", "6 C18", "Lean theorems (decision procedures = inductive spec relations) + exhaustive differential matrices"),
